@@ -17,11 +17,15 @@ func init() { engines["cachekeys"] = engineCacheKeys }
 
 type recordingCache struct {
 	gets, adds []string
+	resets     int
 }
 
-func (c *recordingCache) Get(k string) (interface{}, bool) { c.gets = append(c.gets, k); return nil, false }
-func (c *recordingCache) Add(k string, _ interface{})      { c.adds = append(c.adds, k) }
-func (c *recordingCache) Reset()                           {}
+func (c *recordingCache) Get(k string) (interface{}, bool) {
+	c.gets = append(c.gets, k)
+	return nil, false
+}
+func (c *recordingCache) Add(k string, _ interface{}) { c.adds = append(c.adds, k) }
+func (c *recordingCache) Reset()                      { c.resets++ }
 
 func engineCacheKeys(cases string) {
 	rc := &recordingCache{}
@@ -32,6 +36,13 @@ func engineCacheKeys(cases string) {
 	}
 	eachLine(cases, func(c string) {
 		f := strings.Fields(c)
+		if f[0] == "RELOAD" {
+			// "RELOAD <yaml hex>": how often is the cache reset by this (re)load?  (the model: once when it succeeds, never when it fails)
+			rc.resets = 0
+			err := m.InitFromYAMLString(unhex(f[1]))
+			fmt.Fprintf(out, "RELOAD ok=%v resets=%d\n", err == nil, rc.resets)
+			return
+		}
 		rc.gets, rc.adds = nil, nil
 		m.GetMapping(unhex(f[1]), mapper.MetricType(f[0]))
 		var g, a []string
